@@ -413,7 +413,9 @@ impl<'a, T> ChordsV2<'a, T> {
                         .iter()
                         .all(|pk| accumulated_presses.contains(pk))
                     {
-                        let ach = get_active_chord(cch, since, coord, relevant_release_found);
+                        let release_found =
+                            relevant_release_found && participant_released(&self.queue, cch);
+                        let ach = get_active_chord(cch, since, coord, release_found);
                         if self.active_chords.push(ach).is_err() {
                             // No room for another active chord: let the keys through unchorded.
                             no_chord_activations!(self);
@@ -448,7 +450,9 @@ impl<'a, T> ChordsV2<'a, T> {
                     match completed_chord {
                         Some(cch) => {
                             let coord = self.next_coord();
-                            let ach = get_active_chord(cch, since, coord, relevant_release_found);
+                            let release_found =
+                                relevant_release_found && participant_released(&self.queue, cch);
+                            let ach = get_active_chord(cch, since, coord, release_found);
                             if self.active_chords.push(ach).is_err() {
                                 no_chord_activations!(self);
                             }
@@ -504,8 +508,9 @@ impl<'a, T> ChordsV2<'a, T> {
             };
             match completed_chord {
                 Some(cch) => {
-                    let ach =
-                        get_active_chord(cch, since, self.next_coord(), relevant_release_found);
+                    let release_found =
+                        relevant_release_found && participant_released(&self.queue, cch);
+                    let ach = get_active_chord(cch, since, self.next_coord(), release_found);
                     if self.active_chords.push(ach).is_err() {
                         no_chord_activations!(self);
                     }
@@ -568,6 +573,25 @@ fn release_key_from_active_chords<T>(achs: &mut [ActiveChord<T>], j: u16) {
             }
         }
     });
+}
+
+/// True if the queue holds the release of one of the chord's keys behind that key's press.
+/// The release of some other key that happens to be queued as well does not release the chord.
+fn participant_released<T>(queue: &Queue, cch: &ChordV2<'_, T>) -> bool {
+    let mut pressed = HVec::<u16, SMOL_Q_LEN>::new();
+    for qd in queue.iter() {
+        match qd.event {
+            Event::Press(_, j) => {
+                let _ = pressed.push(j);
+            }
+            Event::Release(_, j) => {
+                if pressed.contains(&j) && cch.participating_keys.contains(&j) {
+                    return true;
+                }
+            }
+        }
+    }
+    false
 }
 
 fn get_active_chord<'a, T>(
